@@ -174,6 +174,34 @@ def permanodeAnyTime (p : PN) : Option Int :=
   | some t => some t
   | none => permanodeModtime p
 
+/-! ### deletions (corpus.go:146 IsDeleted)
+
+`PN.dates` are the dates of the NON-deleted claims: PermanodeModtime skips `c.IsDeleted(cl.BlobRef)`.
+Attribute values (dateCreated, tag, camliNodeType, camliContent) are folded over all claims without
+looking at deletions, so a deleted attribute claim keeps its effect on them – only the modtime (and
+the creation time of a permanode that has neither dateCreated nor an indexed content file) moves. -/
+
+/-- what a delete claim targets: the `ci`-th claim of the `pn`-th permanode, or the `j`-th delete claim -/
+inductive DelTarget where
+  | claim (pn ci : Nat)
+  | del (j : Nat)
+deriving DecidableEq, Repr
+
+/-- Corpus.IsDeleted of the `j`-th delete claim: it has a deleter that is not itself deleted.  A deleter
+is always a later delete claim, so `fuel = number of delete claims` suffices. -/
+def delDeleted (dels : List DelTarget) : Nat → Nat → Bool
+  | 0, _ => false
+  | fuel + 1, j =>
+    (List.range dels.length).any (fun k => dels[k]? == some (.del j) && !delDeleted dels fuel k)
+
+/-- Corpus.IsDeleted of a claim -/
+def claimDeleted (dels : List DelTarget) (pn ci : Nat) : Bool :=
+  (List.range dels.length).any (fun k => dels[k]? == some (.claim pn ci) && !delDeleted dels dels.length k)
+
+/-- the dates PermanodeModtime looks at: those of the claims that are not deleted -/
+def liveDates (dels : List DelTarget) (pn : Nat) (dates : List Int) : List Int :=
+  ((List.range dates.length).filter (fun ci => !claimDeleted dels pn ci)).filterMap (fun ci => dates[ci]?)
+
 inductive SortBy where
   | created     -- CreatedDesc
   | lastMod     -- LastModifiedDesc
